@@ -191,7 +191,21 @@ func faultNullable(typ, field string) bool {
 func respond(kind string, r *sim.Request, answer []byte) *sim.Response {
 	switch kind {
 	case "transport":
-		return &sim.Response{Err: errors.New("injected: connection refused")}
+		// the text of a transport error is controlled by the peer and by net/http: quotes,
+		// backslashes, control characters and non-ASCII occur ('malformed HTTP response "…"')
+		msgs := []string{
+			"injected: connection refused",
+			`malformed HTTP response "\x15\x03\x01\x00\x02\x02"`,
+			"bad Content-Length \"12x\"",
+			"read tcp 127.0.0.1:1->127.0.0.1:2: read: connection reset by peer",
+			"unexpected EOF",
+			"tls: failed to verify certificate: x509: certificate is valid for \"a\", not \"b\"",
+			"line1\nline2\ttab \\ backslash \u0000 nul é😀 </script>",
+			"",
+		}
+		h := fnv.New32a()
+		h.Write([]byte(r.Body))
+		return &sim.Response{Err: errors.New(msgs[h.Sum32()%uint32(len(msgs))])}
 	case "http500":
 		return &sim.Response{Status: 500, Body: []byte{}}
 	case "http500-body":
